@@ -174,7 +174,20 @@ func loggers(w *checkWriter, syncW bool) []*zerolog.Logger {
 	l4 := l1.Hook(discardDebug{}, hook{}, hook{})
 	l5 := l1.With().Str("own", "er").Str("tenant", "t-42").Logger()
 	l6 := l5.Level(zerolog.DebugLevel)
-	return []*zerolog.Logger{&l0, &l1, &l2, &l3, &l4, &l5, &l6}
+	// contexts made of one object bigger than a pooled buffer (600 bytes, 5 KB), on a parent without
+	// context fields and on one that has some; built while nothing else is going on
+	l7 := l0.With().Object("big", bigObj(12)).Logger()
+	l8 := l1.With().EmbedObject(bigObj(100)).Object("again", bigObj(12)).Logger()
+	return []*zerolog.Logger{&l0, &l1, &l2, &l3, &l4, &l5, &l6, &l7, &l8}
+}
+
+// bigObj marshals n fields of about 50 bytes each.
+type bigObj int
+
+func (b bigObj) MarshalZerologObject(e *zerolog.Event) {
+	for i := 0; i < int(b); i++ {
+		e.Str(fmt.Sprintf("field_%03d", i), "0123456789012345678901234567890123456789")
+	}
 }
 
 func emit(ls []*zerolog.Logger, c Chain) {
@@ -345,7 +358,7 @@ func run(wl *Workload) (msg string, nontrivial bool) {
 }
 
 func genChain(rt *rapid.T, g *lp.G) Chain {
-	c := Chain{Logger: rapid.IntRange(0, 4).Draw(rt, "logger")}
+	c := Chain{Logger: rapid.SampledFrom([]int{0, 1, 2, 3, 4, 0, 1, 2, 3, 4, 7, 8}).Draw(rt, "logger")}
 	c.Ev = g.Event("ev")
 	// deterministic, always enabled at debug or above, never panics
 	switch c.Ev.Method {
